@@ -104,6 +104,14 @@ theorem parseData_congr (f g : Ty → Val → Comp) (ro : ROpts) (d : Decl)
   · rw [dataLoop_congr f g d.fields h ks xs s]
   · exact fieldsFF_congr f g ro ks xs d.fields h s
 
+theorem parseInto_congr (f g : Ty → Val → Comp) (ro : ROpts) (d : Decl)
+    (h : ∀ fl ∈ d.fields, f fl.ty = g fl.ty) (ks : List String) (xs : List Val) :
+    parseInto f ro d ks xs = parseInto g ro d ks xs := by
+  unfold parseInto
+  have : (fun s => parseData f ro d ks xs s) = (fun s => parseData g ro d ks xs s) :=
+    funext (fun s => parseData_congr f g ro d h ks xs s)
+  simp only [this]
+
 theorem closed_lookup {E : Env} (hE : E.closed = true) {k : Nat} {d : Decl} (h : E[k]? = some d) :
     d.scoped E.length = true := by
   have hd : d ∈ E := List.mem_of_getElem? h
@@ -121,7 +129,9 @@ theorem initWith_append (f g : Ty → Val → Comp) (ro : ROpts) (E ds : Env) (h
     simp only
     have hsc := closed_lookup hE hd
     simp only [Decl.scoped, Bool.and_eq_true, List.all_eq_true] at hsc
-    rw [parseData_congr f g ro d (fun fl hfl => hfg fl.ty (hsc.1 fl hfl)) ks xs s]
+    have hpi : ∀ ks xs, parseInto f ro d ks xs = parseInto g ro d ks xs :=
+      fun ks xs => parseInto_congr f g ro d (fun fl hfl => hfg fl.ty (hsc.1 fl hfl)) ks xs
+    simp only [hpi]
 
 /-- **Declaration independence of the transformer**: for a type that only mentions declarations of `E`, the
 conversion is the same function in `E` and in every extension of `E`. -/
@@ -176,10 +186,10 @@ theorem callWith_append (optsOf : List (Option Opts) → Nat → Opts) (ro : ROp
     have hsc := closed_lookup hE hd
     simp only [Decl.scoped, Bool.and_eq_true, List.all_eq_true] at hsc
     split
-    · rw [parseData_congr (conv (E ++ ds) (optsOf d.wrappers wrapper) fuelDefault)
+    · rw [parseInto_congr (conv (E ++ ds) (optsOf d.wrappers wrapper) fuelDefault)
         (conv E (optsOf d.wrappers wrapper) fuelDefault) {} { d with dfs := false }
-        (fun fl hfl => conv_append E ds hE fuelDefault _ fl.ty (hsc.1 fl hfl)) ks xs s]
-      cases parseData (conv E (optsOf d.wrappers wrapper) fuelDefault) {} { d with dfs := false } ks xs s with
+        (fun fl hfl => conv_append E ds hE fuelDefault _ fl.ty (hsc.1 fl hfl)) ks xs]
+      cases parseInto (conv E (optsOf d.wrappers wrapper) fuelDefault) {} { d with dfs := false } ks xs s with
       | mk r s1 =>
         cases r with
         | error e => rfl
